@@ -229,4 +229,57 @@ func runC07(c *mon.Ctx) {
 			cs.Outcome("refused")
 		}
 	}
+
+	// ---- one long-lived SP whose clock moves: the certificate window is consulted on every response ----
+	ns := c.N(300, 10000)
+	for k := 0; k < ns; k++ {
+		cs := c.Begin("same-sp-clock-sequence", k)
+		if cs == nil {
+			continue
+		}
+		r := cs.Rand()
+		sp, spy, _ := NewSP(nb.Add(time.Hour), sim.Wide(sim.K("idp3"), nb))
+		sp.ValidateEncryptionCert = true
+		if r.IntN(2) == 0 {
+			sp.SetSPKeyStore(&saml2.KeyStore{Signer: spCert.Key.Signer, Cert: spCert.DER})
+		} else {
+			sp.SPKeyStore = dsig.TLSCertKeyStore(tls.Certificate{Certificate: [][]byte{spCert.DER}, PrivateKey: spCert.Key.RSA()})
+		}
+		idp := sim.Wide(sim.K("idp3"), nb)
+		// a walk over clock positions; each step presents a response that is fresh for that instant
+		steps := 3 + r.IntN(4)
+		var trace []string
+		bad := false
+		for i := 0; i < steps && !bad; i++ {
+			clk := clocks[r.IntN(len(clocks))]
+			if i == 0 {
+				clk = clocks[0] // start inside the window so that a positive verdict exists to be (wrongly) remembered
+			}
+			spy.Set(clk.t)
+			wc := NewWorld(clk.t)
+			rec := sim.GenuineResponse(wc.Env, 1)
+			rec.Assertions[0].Sig = sim.DefaultSig(idp.Key, idp)
+			rec.Assertions[0].Enc = &sim.EncSpec{DataAlg: pick(r, sim.DataAlgs), KeyAlg: sim.RSAOAEP, To: spCert}
+			doc, err := sim.BuildResponse(rec, sim.PlainStyle())
+			if err != nil {
+				cs.Inconclusive("simulator-error")
+				bad = true
+				break
+			}
+			_, verr := sp.ValidateEncodedResponse(sim.Encode(doc, sim.RawLevel))
+			trace = append(trace, fmt.Sprintf("%s:%v", clk.name, verr == nil))
+			if verr == nil && !clk.inside {
+				bad = true
+				cs.Violation("decrypted-outside-window-after-earlier-success", "step %d: clock %s is outside the SP certificate window but the same SP still decrypts (trace %v)", i, clk.name, trace)
+			} else if verr != nil && clk.inside {
+				bad = true
+				cs.Violation("valid-config-refused", "step %d: clock %s inside the window but refused (trace %v): %v", i, clk.name, trace, verr)
+			}
+		}
+		cs.Desc("trace=%v", trace)
+		cs.Nontrivial(fmt.Sprintf("%v/%d", trace, k))
+		if !bad {
+			cs.Outcome("window-rechecked")
+		}
+	}
 }
